@@ -363,3 +363,82 @@ Proof.
     + intros k Hk. apply lookup_keys. exact Hk.
     + exists N, dic'. intros fuel Hle. apply (inline_loop_mono _ _ _ _ _ H _ Hle).
 Qed.
+
+(* ---------- inlining is complete: no reference to an inlined cell is left ---------- *)
+Definition not_bare_ref (g : geom) : Prop := match g with GRef _ => False | _ => True end.
+Definition no_bare (dic : list (Z * mcell)) : Prop :=
+  forall k c, lookup k dic = Some c -> not_bare_ref (cgeom c).
+Definition clean (ti : list Z) (g : geom) : Prop := forall r, In r (refs g) -> memZ r ti = false.
+
+Lemma worker_keeps_shape dic ti fuel g g' :
+  inline_worker fuel dic ti g = Ok g' -> not_bare_ref g -> not_bare_ref g'.
+Proof.
+  destruct fuel as [|f]; cbn [inline_worker]; [discriminate|].
+  destruct g as [s|c|op args]; intros H Hn; try (injection H as <-; exact Hn).
+  destruct (map_res _ args); [|discriminate]. injection H as <-. exact I.
+Qed.
+
+Lemma worker_complete dic ti : no_bare dic ->
+  forall fuel g g', inline_worker fuel dic ti g = Ok g' -> not_bare_ref g -> clean ti g'.
+Proof.
+  intros Hnb. induction fuel as [|f IH]; intros g g' H Hn; cbn [inline_worker] in H; [discriminate|].
+  destruct g as [s|c|op args]; [injection H as <-; intros r []|destruct Hn|].
+  destruct (map_res _ args) as [args'|e] eqn:Em; [|discriminate].
+  injection H as <-. apply map_res_ok in Em. intros r Hr. clear Hn.
+  apply refs_node in Hr. destruct Hr as [b [Hb Hrb]].
+  induction Em as [|a b0 l l' Hab _ IHl]; [destruct Hb|].
+  destruct Hb as [<-|Hb]; [|exact (IHl Hb)].
+  destruct a as [s|c|op' la]; cbn [inline_arg] in Hab.
+  - injection Hab as <-. destruct Hrb.
+  - destruct (memZ c ti) eqn:Ec.
+    + destruct (lookup c dic) as [sub|] eqn:El; [|discriminate].
+      apply (IH _ _ Hab (Hnb _ _ El) r Hrb).
+    + injection Hab as <-. destruct Hrb as [<-|[]]. exact Ec.
+  - apply (IH _ _ Hab I r Hrb).
+Qed.
+
+Lemma inline_loop_complete fuel ti : forall keys dic dic' done,
+  inline_loop fuel ti keys dic = Ok dic' -> no_bare dic ->
+  (forall k c, lookup k dic = Some c -> In k done -> clean ti (cgeom c)) ->
+  no_bare dic' /\
+  (forall k c, lookup k dic' = Some c -> In k done \/ In k keys -> clean ti (cgeom c)).
+Proof.
+  induction keys as [|k r IH]; intros dic dic' done H Hnb Hdone; cbn [inline_loop] in H.
+  - injection H as <-. split; [exact Hnb|]. intros j c Hj [Hd|[]]. exact (Hdone _ _ Hj Hd).
+  - destruct (lookup k dic) as [c|] eqn:Ek; [|discriminate].
+    destruct (inline_worker fuel dic ti (cgeom c)) as [g'|e] eqn:Ew; [|discriminate].
+    destruct (IH _ _ (k :: done) H) as [Hnb' Hc'].
+    + intros j cj Hj. rewrite lookup_update in Hj. destruct (Z.eqb k j).
+      * injection Hj as <-. cbn [set_geom cgeom]. apply (worker_keeps_shape _ _ _ _ _ Ew (Hnb _ _ Ek)).
+      * exact (Hnb _ _ Hj).
+    + intros j cj Hj Hin. rewrite lookup_update in Hj. destruct (Z.eqb k j) eqn:E.
+      * injection Hj as <-. cbn [set_geom cgeom]. apply (worker_complete dic ti Hnb _ _ _ Ew (Hnb _ _ Ek)).
+      * destruct Hin as [<-|Hin]; [rewrite Z.eqb_refl in E; discriminate|]. exact (Hdone _ _ Hj Hin).
+    + split; [exact Hnb'|]. intros j cj Hj Hin. apply (Hc' _ _ Hj).
+      destruct Hin as [Hd|[<-|Hr]]; [left; right; exact Hd|left; left; reflexivity|right; exact Hr].
+Qed.
+
+Lemma inline_loop_dom fuel ti : forall keys dic dic', inline_loop fuel ti keys dic = Ok dic' ->
+  forall k, lookup k dic <> None <-> lookup k dic' <> None.
+Proof.
+  induction keys as [|k0 r IH]; intros dic dic' H k; cbn [inline_loop] in H.
+  - injection H as <-. tauto.
+  - destruct (lookup k0 dic) as [c|] eqn:Ek; [|discriminate].
+    destruct (inline_worker fuel dic ti (cgeom c)) as [g'|e]; [|discriminate].
+    rewrite <- (IH _ _ H k), lookup_update. destruct (Z.eqb k0 k) eqn:E; [|tauto].
+    apply Z.eqb_eq in E; subst k0. rewrite Ek. split; congruence.
+Qed.
+
+(* after inline_cells no cell mentions a cell of to_inline any more (tables whose
+   geometries are not bare CellRefs: pot_fill always builds a node) *)
+Theorem inline_complete fuel ti dic dic' :
+  no_bare dic -> inline_cells fuel ti dic = Ok dic' ->
+  forall k c, lookup k dic' = Some c -> forall r, In r (refs (cgeom c)) -> memZ r ti = false.
+Proof.
+  intros Hnb H k c Hk. unfold inline_cells in H. destruct ti as [|t ti'].
+  - intros r _. reflexivity.
+  - destruct (inline_loop_complete fuel (t :: ti') (map fst dic) dic dic' [] H Hnb) as [_ Hc].
+    + intros j cj _ [].
+    + apply (Hc _ _ Hk). right. apply lookup_keys.
+      apply (inline_loop_dom _ _ _ _ _ H k). congruence.
+Qed.
